@@ -314,6 +314,10 @@ class Unit:
         if exprs:
             t, n = R.r23_hashmap_into_iter(t, exprs)
             self._count("R23", n)
+        exprs = it.opts.get("hashset_ref_iter", [])
+        if exprs:
+            t, n = R.r23_hashset_ref_iter(t, exprs)
+            self._count("R23", n)
         exprs = it.opts.get("hashset_into_iter", [])
         if exprs:
             t, n = R.r23_hashset_into_iter(t, exprs)
